@@ -96,9 +96,9 @@ Proof.
   destruct (pf && sh) eqn:E1; [exact H|].
   destruct bs as [|b0 bs]; [exact H|].
   destruct sh; [exact H|].
+  destruct (sk (eps s z)) as [k|] eqn:Esk; cbn [is_some negb]; [|exact H].
   destruct (cred s z) as [|c] eqn:Ec; [destruct pf; exact H|].
-  unfold stamp_send. cbn [eps set_cred].
-  destruct (sk (eps s z)) as [k|] eqn:Esk; cbn [fst]; [|exact H].
+  unfold stamp_send. cbn [eps set_cred]. rewrite Esk. cbn [fst].
   unfold emit, net_send. cbn [cut set_gsent set_ep set_cred].
   destruct (cut s z); destruct x, z; gone_fin H.
 Qed.
@@ -225,9 +225,9 @@ Proof.
   destruct (pf && sh) eqn:E1; [exact H|].
   destruct bs as [|b0 bs]; [exact H|].
   destruct sh; [exact H|].
+  destruct (sk (eps s z)) as [k|] eqn:Esk; cbn [is_some negb]; [|exact H].
   destruct (cred s z) as [|c] eqn:Ec; [destruct pf; exact H|].
-  unfold stamp_send. cbn [eps set_cred].
-  destruct (sk (eps s z)) as [k|] eqn:Esk; cbn [fst]; [|exact H].
+  unfold stamp_send. cbn [eps set_cred]. rewrite Esk. cbn [fst].
   unfold emit, net_send. cbn [cut set_gsent set_ep set_cred].
   destruct (cut s z); destruct y, z; refs_fin H Esk.
 Qed.
